@@ -110,6 +110,7 @@ type runner struct {
 	mpath    string
 	witness  string
 	fifo     string
+	newf     string // does not exist when a run starts (O_EXCL creators)
 	mu       sync.Mutex
 	events   []Event
 	l1       []string
@@ -159,6 +160,8 @@ func (r *runner) class(p string) string {
 		return "mutex"
 	case r.fifo:
 		return "fifo"
+	case r.newf:
+		return "new"
 	}
 	return "other"
 }
@@ -174,6 +177,13 @@ func (r *runner) Before(op *vos.Op) vos.Action {
 	}
 	s.Point(op.Kind, cls, nil)
 	ev := Event{Ev: "op", A: s.Current().Name, Op: op.Kind, File: cls}
+	if r.inject.Kind == "eacces" && op.Kind == "open" && op.Flag&(os.O_WRONLY|os.O_RDWR) != 0 {
+		// the caller may read the file but not write it: an open for writing is refused; nobody may then hold
+		// the file write-locked (a weaker open in its place would take a weaker lock)
+		ev.Fail = true
+		r.log(ev)
+		return vos.Action{Err: syscall.EACCES}
+	}
 	if cls == "data" && (op.Kind == "writeat" || op.Kind == "write" || (op.Kind == "truncate")) {
 		r.mu.Lock()
 		r.nops++
@@ -250,6 +260,16 @@ func (r *runner) actor(name string, ops []Op) func() {
 					f, err = lockedfile.Create(r.fifo)
 				case "wf":
 					f, err = lockedfile.Edit(r.fifo)
+				case "excl":
+					// the creator of a file that did not exist: it holds the write lock like any other writer
+					// (fails, and holds nothing, when somebody else created the file first)
+					f, err = lockedfile.OpenFile(r.newf, os.O_RDWR|os.O_CREATE|os.O_EXCL, 0o666)
+				case "wnew":
+					f, err = lockedfile.OpenFile(r.newf, os.O_RDWR|os.O_CREATE, 0o666)
+				case "rnew":
+					f, err = lockedfile.Open(r.newf)
+				case "wa":
+					f, err = lockedfile.OpenFile(r.data, os.O_WRONLY|os.O_APPEND, 0o666)
 				case "wx":
 					// a write-lock holder whose descriptor is also held by a child process (as in the fork/exec
 					// window of any concurrent command start, here made deterministic through ExtraFiles):
@@ -273,8 +293,11 @@ func (r *runner) actor(name string, ops []Op) func() {
 				if o.Mode == "cf" || o.Mode == "wf" {
 					dom = "fifo"
 				}
+				if o.Mode == "excl" || o.Mode == "wnew" || o.Mode == "rnew" {
+					dom = "new"
+				}
 				r.log(Event{Ev: "acq", A: name, Op: o.Op, Mode: o.Mode, File: dom})
-				r.critical(name, o.Mode != "r", dom)
+				r.critical(name, o.Mode != "r" && o.Mode != "rnew", dom)
 				r.log(Event{Ev: "rel", A: name, Op: o.Op, Mode: o.Mode, File: dom})
 				err = f.Close()
 				r.log(Event{Ev: "ret", A: name, Op: o.Op, Res: okErr(err)})
@@ -323,7 +346,9 @@ func newRunner(init []string) *runner {
 	dir := filepath.Join(tmpRoot, "lf")
 	os.MkdirAll(dir, 0o777)
 	r := &runner{dir: dir, data: filepath.Join(dir, "data"), mpath: filepath.Join(dir, "lock"), witness: filepath.Join(dir, "witness"),
-		fifo: filepath.Join(dir, "fifo")}
+		fifo: filepath.Join(dir, "fifo"), newf: filepath.Join(dir, "newfile")}
+	os.Remove(r.newf)
+	os.Remove(r.witness + "-new")
 	os.Remove(r.fifo)
 	syscall.Mkfifo(r.fifo, 0o666)
 	os.Remove(r.witness + "-fifo")
@@ -340,6 +365,11 @@ func newRunner(init []string) *runner {
 func runOne(family, mode string, cfg Config, strat vsched.Strategy, inj Inject) *RunRec {
 	r := newRunner(cfg.Init)
 	r.inject = inj
+	if inj.Kind == "eacces" {
+		// the files exist (somebody else made them), the caller just may not write them
+		os.WriteFile(r.mpath, nil, 0o444)
+		os.WriteFile(r.newf, nil, 0o444)
+	}
 	vos.SetInterceptor(r)
 	names := make([]string, 0, len(cfg.Prog))
 	for a := range cfg.Prog {
@@ -416,7 +446,9 @@ func freeWorker(dir string, logPath string, gor, iters, id int, family string) {
 			for i := 0; i < iters; i++ {
 				tok := string(rune('A' + (id*7+g*3+i)%26))
 				if family == "C06" {
-					switch rng.Intn(6) {
+					switch rng.Intn(7) {
+					case 6:
+						ops = append(ops, Op{Op: "hold", Mode: "wa"})
 					case 0:
 						ops = append(ops, Op{Op: "hold", Mode: "r"})
 					case 1:
@@ -614,6 +646,25 @@ func main() {
 			c2 := Config{Prog: Prog{"a1": {{Op: "transform", Kind: "ferr", Tok: "t", V: []string{}}}, "a2": {}, "a3": {}}, Init: cfg.Init}
 			col.add(runOne("Fault", "ferr", c2, &vsched.Replay{}, Inject{Kind: "ferr"}))
 			res.Eval(true)
+		}
+	case "perm":
+		// every open for writing is refused (read-only lock file / data file): no call may end up holding a lock
+		// that lets it into a writer's critical section
+		// (bounded DFS: on the unchanged tree the calls fail after one operation each, so the search is small)
+		for _, cfg := range configs {
+			d := &vsched.DFS{Bound: *bound}
+			cnt := 0
+			for {
+				d.Reset()
+				rec := runOne(*family, "perm", cfg, d, Inject{Kind: "eacces"})
+				col.add(rec)
+				res.Eval(true)
+				cnt++
+				if rec.End != "done" || !d.Next() || cnt >= *maxruns {
+					break
+				}
+			}
+			res.Count("perm_runs", int64(cnt))
 		}
 	case "free":
 		for i := 0; i < *runs; i++ {
